@@ -237,6 +237,8 @@ def progbatch(run, extra_args=None):
     run.extra_cov["compile_rejected"] = len(total_rejected)
     if total_rejected:
         run.extra_cov["compile_rejected_detail"] = dict(list(total_rejected.items())[:5])
+        import sys as _sys
+        print(f"NOTE property={run.prop} {len(total_rejected)} generated definitions were rejected at compile time by the current tree and left out: {sorted(total_rejected)[:6]} (details in the evidence file)", file=_sys.stderr)
 
 
 def build_expander(features=None):
@@ -354,6 +356,25 @@ def c03(run):
                     "classes": {"lint:definitions": lint_evals}, "known_seen": lint_known,
                     "rule": "the same definitions, expanded by /repo's generator and written out as ordinary source modules of a crate with #![deny(improper_ctypes, improper_ctypes_definitions)], each followed by extern \"C\" probe declarations over the opaque Box/ArcBox/Mut/Ref/ArcRef object types (which makes the lint walk the instantiated vtable, container and RetTmp structs), plus probes over every wrapper type of the runtime crate; oracle = rustc's verdict. quick: every 13th enumerated definition + all random ones; thorough: all",
                     "assumptions": ["the lints of the installed stable rustc are the yardstick (the property says: by the compiler's own rules)"]})
+    # (4) the functions installed in extern "C" slots really have the C ABI (panic probes)
+    if not run.replay or json.load(open(run.replay)).get("sub") == "abi-probes":
+        rb = build_rtprops()
+        names = (common.sh([rb, "--abi-probe", "list"], timeout=60).stdout or "").split()
+        if run.replay:
+            names = [n for n in names if n == json.load(open(run.replay))["case"]["probe"]]
+        aviol = []
+        for n in names:
+            rr = subprocess.run([rb, "--abi-probe", n], stdout=subprocess.DEVNULL, stderr=subprocess.DEVNULL, timeout=120)
+            if rr.returncode in (42, 101):   # caught, or escaped to the top of the thread: it unwound either way
+                aviol.append({"sub": "abi-probes", "key": "C03:abi:" + n, "what": f"probe {n}: a panic raised by user code inside the function the library installs in this extern \"C\" slot unwound into the caller instead of aborting at the boundary: the installed function does not have the C ABI", "case": {"probe": n}})
+            elif rr.returncode != -6:
+                run.inconclusive.append(f"ABI probe {n} ended with status {rr.returncode} (expected SIGABRT; 42/101 mean the panic unwound)")
+        run.add_result({"_label": "abi-probes", "evaluations": len(names), "distinct_nontrivial": len(names), "violations": aviol, "classes": {"abi-probes": len(names)}, "known_seen": {},
+                        "samples": [{"sub": "abi-probes", "case": {"probe": n}} for n in names[:2]], "exhaustive": True,
+                        "rule": "every function-pointer slot the runtime crate and the generated code fill (CIterator next, callback from a closure, CVec / CBox / CSliceBox / CArc drop functions, a vtable entry, a consuming vtable entry): user code running inside the installed function panics, each probe in its own process; an extern \"C\" function aborts at its boundary, a Rust-ABI function hidden behind a transmute lets the panic unwind (exit 42)"})
+        if run.replay:
+            os.remove(defs_file) if os.path.exists(defs_file) else None
+            return
     # (3) repr audit of the runtime crate
     out = os.path.join(common.WORK, f"c03-reprs-{os.getpid()}.json")
     common.sh([exp, "reprs", os.path.join(common.REPO, "cglue", "src"), out], timeout=300)
